@@ -24,7 +24,7 @@ RULE = ("explicit-state search: states = contents of two real HDF5 files X, Y (c
         "is_cooler is False WITHOUT raising for every other path of the alphabet, a data set path, a missing path, a missing file; "
         "foreign objects and attributes untouched; an operation on a missing source (no overwrite) touches nothing that existed. "
         "Non-trivial: a transition from a state holding >=1 collection. Distinct by construction (state dedup).")
-BOUNDS = {"quick": "depth 2 from the empty and the seeded initial state; depth 1 over a 5-path alphabet from the linked initial state (soft + hard link to a collection) and from the mcool initial state (file tagged and laid out as a multi-resolution file, free paths /a and /0); every cp / cp -w / mv / ln / ln -s operation of the alphabet is also run once through the command line from the seeded and the linked state (depth 1; depth 2 from the linked state in the thorough tier), with `cooler ls` and `cooler ls -l` compared with the listing in every state reached",
+BOUNDS = {"quick": "depth 2 from the empty and the seeded initial state; depth 1 over a 5-path alphabet from the linked initial state (soft + hard link to a collection) and from the mcool initial state (file tagged and laid out as a multi-resolution file, free paths /a and /0) and from the seeded state over the paths {/, /resolutions/2, /resolutions/4, /a}; every cp / cp -w / mv / ln / ln -s operation of the alphabet is also run once through the command line from the seeded and the linked state (depth 1; depth 2 from the linked state in the thorough tier), with `cooler ls` and `cooler ls -l` compared with the listing in every state reached",
           "thorough": "depth 3 from the empty state (third step restricted to operations on file X, operations on a missing source up to depth 2), depth 2 from the seeded, the linked and the mcool state; every cp / cp -w / mv / ln / ln -s operation of the alphabet is also run once through the command line from the seeded and the linked state (depth 1; depth 2 from the linked state in the thorough tier), with `cooler ls` and `cooler ls -l` compared with the listing in every state reached"}
 ASSUMPTIONS = ["excluded from the alphabet (no defined meaning): mv / hard ln whose source is the root group, any operation whose destination "
                "lies inside the source's own subtree or is already occupied (except create and cp(overwrite)), links through links of another file",
@@ -80,7 +80,11 @@ OPS_L = all_ops(PATHS_L)     # alphabet of the 'linked' initial state (X: /a = D
 # /resolutions/2 = D1, /resolutions/4 = D2); /a and /0 are free ('/0' is the group name of the legacy multi-resolution layout)
 PATHS_M = ["/", "/resolutions/2", "/resolutions/4", "/a", "/0"]
 OPS_M = all_ops(PATHS_M)
-ALPHA = {"linked": (OPS_L, PATHS_L), "mcool": (OPS_M, PATHS_M)}
+# the seeded initial state (root collection + foreign objects) over paths below /resolutions: assembling a multi-resolution layout
+# by hand, one append at a time, in a file that already holds a root collection
+PATHS_R = ["/", "/resolutions/2", "/resolutions/4", "/a"]
+OPS_R = all_ops(PATHS_R)
+ALPHA = {"linked": (OPS_L, PATHS_L), "mcool": (OPS_M, PATHS_M), "seeded-res": (OPS_R, PATHS_R)}
 
 
 def units(tier):
@@ -92,6 +96,8 @@ def units(tier):
         yield {"init": "linked", "first": k, "depth": 2 if th else 1}
     for k in range(len(OPS_M)):
         yield {"init": "mcool", "first": k, "depth": 2 if th else 1}
+    for k in range(len(OPS_R)):
+        yield {"init": "seeded-res", "first": k, "depth": 2 if th else 1}
     # the same operations through the command line (cooler cp | mv | ln [-s] | cp -w), listing through `cooler ls [-l]`
     for init, ops in (("seeded", OPS), ("linked", OPS_L)):
         for k in range(len(ops)):
@@ -306,7 +312,7 @@ def initial(init, d):
     os.makedirs(d, exist_ok=True)
     w = World(d)
     m = FS()
-    if init == "seeded":
+    if init in ("seeded", "seeded-res"):
         import cooler
         bins, pix = data_content("D1")
         cooler.create_cooler(w.path("X"), build.bins_df(bins), fx.frame(pix), columns=["count", "score"], dtypes={"score": float}, ordered=True, **META["D1"])
@@ -344,7 +350,7 @@ def initial(init, d):
 
 def run(unit, R, tier, only=None):
     depth = unit["depth"]
-    seeded = unit["init"] == "seeded"
+    seeded = unit["init"] in ("seeded", "seeded-res")
     OPS, paths = ALPHA.get(unit["init"], (globals()["OPS"], PATHS))
     root = scratch.sub(f"c15_{os.getpid()}_{unit['init']}_{unit['first']}_{unit.get('via', 'api')}")
     try:
